@@ -220,7 +220,7 @@ JOBS['C15'] = [
 
 # ---------------------------------------------------------------- C06
 META['C06'] = {
-    'bounds': {'quick': 'buffers of 3 distinct lines x every current line x marks a,b on every line or unset x 18 address forms (N . $ mark +N -N .+N $-N /pat/ ?pat? N,M N;+M % mark,mark N,$ .,+N 0) with all digit values 0..4 x 12 commands (d, y x, pu x, p, =, ka, a, i, c, r file, rs y, @ z)',
+    'bounds': {'quick': 'buffers of 3 distinct lines x every current line x marks a,b on every line or unset x 21 address forms (N . $ mark +N -N .+N $-N /pat/ ?pat? N,M N;+M % mark,mark N,$ .,+N 0 /pat/+M mark+M 1,?pat?+M) with all digit values 0..4 x 13 commands (d, y x, y X (append), pu x, p, =, ka, a, i, c, r file, rs y, @ z)',
                'thorough': '4 lines, digits 0..5'},
     'outside': '! filters and :r !cmd (need a child process); :so, tags; bare + and - (neatvi reads them as +0); default address of =; scripts of more than one command (the state before the command is arbitrary instead)',
     'assumptions': ['reference: POSIX ex addressing without wrap-around search; after d the current line is the line after the deleted ones or the last line'],
